@@ -279,21 +279,11 @@ func suitePFB(o *suiteOut, r *rng, tier string, n int) {
 		}
 	}
 	// all first-two-byte header values
-	nh := 3000
-	if tier == "thorough" {
-		nh = 65536
-		o.exhaustive = true
-	}
+	// (exhaustive in both tiers: a special case for one pair of bytes, such as "%!", is one value in 65,536)
+	nh := 65536
+	o.exhaustive = true
 	for i := 0; i < nh; i++ {
 		v := i
-		if tier != "thorough" {
-			v = r.intn(65536)
-			if i < 256 {
-				v = 0x80<<8 | i
-			} else if i < 512 {
-				v = (i-256)<<8 | 1
-			}
-		}
 		stream := []byte{byte(v >> 8), byte(v), 2, 0, 0, 0, 'h', 'i', 0x80, 3}
 		caseLine := fmt.Sprintf("pfb %s %s %s", hx(stream), "8,8", "-")
 		line, _, _, last, pan := runPFB(stream, []int{8, 8}, nil)
